@@ -549,6 +549,20 @@ class InstructionNodeCreator:
         # do nothing
         if node is None:
             return
+        # the cursor may already be on a new row on which nothing has been
+        # displayed yet: there is nothing to delete there, and the last
+        # character of the previous row must not be touched
+        node_index = max(
+            i for i, n in enumerate(self._collection) if n is node)
+        if (
+            self._position_tracer.is_linebreak_required()
+            or self._position_tracer.is_repositioning_required()
+            or any(
+                n.is_explicit_break() or n.requires_repositioning()
+                for n in self._collection[node_index + 1:]
+            )
+        ):
+            return
         last_char = node.text[-1]
         delete_previous_condition = (
             word in EXTENDED_CHARS and last_char not in EXTENDED_CHARS.values()
